@@ -151,3 +151,29 @@ theorem start_rec (fs0 : FS) (hwf : fs0.WF) (full : Bool) :
     exact List.mem_filter.mpr ⟨List.mem_filter.mpr ⟨hy, h⟩, by simpa using (inTreeDir_iff.mp hty).1⟩
 
 end WD.Pipe
+
+namespace WD.Pipe
+
+theorem Sys.op_full (s : Sys) (op : Op) : (s.op op).1.full = s.full := by
+  unfold Sys.op
+  generalize kernelOp s.fs s.k op = r
+  obtain ⟨a, b, c⟩ := r
+  simp only
+  split
+  · rfl
+  · split
+    · rfl
+    · split <;> rfl
+
+theorem run_full (s : Sys) (ops : List Op) : (s.run ops).1.full = s.full := by
+  induction ops generalizing s with
+  | nil => rfl
+  | cons o rest ih => simp only [Sys.run]; rw [ih, Sys.op_full]
+
+theorem allValid_append (s : Sys) (ops more : List Op) :
+    allValid s (ops ++ more) = (allValid s ops && allValid (s.run ops).1 more) := by
+  induction ops generalizing s with
+  | nil => simp [allValid, Sys.run]
+  | cons o rest ih => simp only [List.cons_append, allValid, Sys.run, ih, Bool.and_assoc]
+
+end WD.Pipe
